@@ -23,6 +23,9 @@ type ReaderPlan struct {
 	ZeroReads bool   `json:"zero_reads"` // sprinkle (0,nil) reads
 	Endless   string `json:"endless"`    // after the document, this line is delivered again and again: the input never ends
 	Once      bool   `json:"once"`       // the reader reports its error once; asked again it reports io.EOF
+	WithLen   bool   `json:"with_len"`   // the reader also has Len() and Size(), as strings.Reader and bytes.Buffer have
+	Stall     bool   `json:"stall"`      // after StallAt bytes Read never returns (a pipe whose writer went silent)
+	StallAt   int    `json:"stall_at"`
 }
 
 var noReaderFault = ReaderPlan{FailAt: -1}
@@ -37,6 +40,22 @@ type simReader struct {
 	Err   error
 	yield bool
 	EndlessReads int
+	Stalled bool
+}
+
+// lenReader is the caller's reader with the extra methods of a strings.Reader: a library
+// may look for them, and must not behave differently for it.
+type lenReader struct{ *simReader }
+
+func (r lenReader) Len() int    { return len(r.data) - r.pos }
+func (r lenReader) Size() int64 { return int64(len(r.data)) }
+
+// asGiven returns the reader the way the plan says the caller hands it over.
+func asGiven(r io.Reader) io.Reader {
+	if sr, ok := r.(*simReader); ok && sr != nil && sr.plan.WithLen {
+		return lenReader{sr}
+	}
+	return r
 }
 
 // stubError returns the error value a stub fails with. The value varies with the plan so
@@ -104,6 +123,13 @@ func (r *simReader) Read(p []byte) (int, error) {
 	limit := len(r.data)
 	if r.plan.FailAt >= 0 && r.plan.FailAt < limit {
 		limit = r.plan.FailAt
+	}
+	if r.plan.Stall && r.plan.StallAt <= limit {
+		limit = r.plan.StallAt
+		if r.pos >= limit {
+			r.Stalled = true
+			simrt.BlockForever("stub:0:reader-stalled@caller's io.Reader")
+		}
 	}
 	if r.pos >= limit {
 		if r.plan.FailAt >= 0 && r.plan.FailAt <= len(r.data) {
@@ -255,7 +281,8 @@ var noCbFault = CbPlan{FailAt: -1}
 
 type simCallback struct {
 	plan   CbPlan
-	inner  func()              // called by the callback / loop body at the first visit (re-entrant use of the library)
+	inner  func()              // called by the callback / loop body at visit innerAt (re-entrant use of the library)
+	innerAt int
 	ptrs   []*gtree.WalkerNode // every node handed to the callback / loop body, re-read after the walk
 	visits []Visit
 	Fired  bool
@@ -300,7 +327,7 @@ func (cb *simCallback) fn(wn *gtree.WalkerNode) error {
 	idx := len(cb.visits)
 	cb.visits = append(cb.visits, v)
 	cb.ptrs = append(cb.ptrs, wn)
-	if idx == 0 && cb.inner != nil {
+	if idx == cb.innerAt && cb.inner != nil {
 		cb.inner()
 	}
 	if cb.Fired {
